@@ -38,6 +38,8 @@ def run(ctx):
     u3(ctx, F, D)
     u4(ctx, F, D)
     u6(ctx, F)
+    from . import p20
+    p20.history_plays_and_records(ctx, F, "C12.U8")       # "plays precisely that move": what the position command calls to play it
 
 
 def _pat_words(pk):
@@ -75,6 +77,7 @@ def u6(ctx, F, rule="C12.U6"):
     if not arms:
         ctx.anchor_missing(rule, "the `startpos` / `fen` branches of uci::command_position")
         return
+    u7(ctx, F, arms, fn, sym, rule.replace("U6", "U7"))
     for word, arm in sorted(arms.items()):
         installs = []
         for n, anc in hir.walk(arm):
@@ -102,6 +105,74 @@ def u6(ctx, F, rule="C12.U6"):
                       what="`position fen ...` must install exactly the game the importer returned for the given text (whenever it "
                            "returned one)", expected="match Game::new(&fen) { Ok(g) => data.current_game = Some(g), .. }",
                       found=[(hir.fmt(v, 60), [hir.fmt(x[1], 60) for x in g]) for _, v, g in installs])
+
+
+def u7(ctx, F, arms, fn, sym, rule="C12.U7"):
+    """the moves given after the keyword `moves` are played: whatever condition guards the play loop is made true, in the
+    `startpos` branch and in the `fen` branch, under a comparison of a token with the word "moves" (a branch that never sets it
+    silently ignores the move list)"""
+    body = fn["hir"]["body"]
+    host = _play_host(F)
+    plays = [c for c, _ in hir.walk(host["hir"]["body"]) if c.get("k") == "MethodCall" and hir.callee_of(c) == "chess::Game::push_history"] \
+        if host is not None else []
+    flags = set()
+    for c in plays:
+        for g in hir.guards_of(c, host["hir"]["body"], hir.Sym(hir.Env(host["hir"], F), F)) or []:
+            if g[0] == "if" and g[2] is True and isinstance(g[1], tuple) and g[1][:1] == ("var",):
+                flags.add(g[1][1])
+    if host is None or host["path"] != fn["path"] or len(flags) != 1:
+        return          # the list is not played under one boolean local of command_position: nothing this rule can say
+    flag = next(iter(flags))
+
+    def mentions_moves(t):
+        return any(isinstance(x, tuple) and x == ("lit", "moves") for x in hir.subterms(t))
+
+    def word_test(t, word):
+        """the condition with every token variable it mentions standing for `word`"""
+        a = {x: ("lit", word) for x in hir.subterms(t) if isinstance(x, tuple) and x[:1] == ("var",)}
+        for x in hir.subterms(t):
+            if isinstance(x, tuple) and x[:1] == ("call",) and str(x[1]).endswith("Iterator::next"):
+                a[x] = ("ctor", "std::prelude::v1::Some", (("lit", word),))
+        return hir.fold(t, a)
+
+    def closure_value(clo, sym_):
+        """value of a closure body `{ if c { side effects; v1 } else { v2 } }` as a term (side-effect statements dropped)"""
+        def val(e):
+            e = hir.strip(e)
+            if e.get("k") == "Block":
+                return val(e["expr"]) if e.get("expr") is not None else None
+            if e.get("k") == "If" and e.get("else") is not None:
+                a_, b_ = val(e["then"]), val(e["else"])
+                return ("if", sym_(e["cond"]), a_, b_) if a_ is not None and b_ is not None else None
+            return sym_(e)
+        return val(clo["body"])
+    for word, arm in sorted(arms.items()):
+        ok = False
+        for n, anc in hir.walk(arm):
+            if n.get("k") == "Assign" and hir.strip(n["l"]).get("k") == "Path" and hir.strip(n["l"])["to"].get("name") == flag:
+                v = sym(n["r"])
+                if v == ("lit", True):
+                    conds = [a_ for a_ in anc if a_.get("k") == "If"]
+                    ok = ok or any(mentions_moves(sym(a_["cond"])) and any(x is n for x, _ in hir.walk(a_["then"])) and
+                                   word_test(sym(a_["cond"]), "moves") == ("lit", True) and word_test(sym(a_["cond"]), "8/8") == ("lit", False)
+                                   for a_ in conds)
+                elif mentions_moves(v):
+                    ok = word_test(v, "moves") == ("lit", True) and word_test(v, "x") == ("lit", False)      # flag = (next token == "moves")
+        # a `take_while` that collects the words of the FEN stops at the keyword (and only there): otherwise the move list is
+        # swallowed into the FEN text
+        for n, anc in hir.walk(arm):
+            if n.get("k") == "MethodCall" and n["name"] == "take_while" and n.get("args"):
+                clo = hir.strip(n["args"][0])
+                if clo.get("k") == "Closure" and clo.get("params"):
+                    pn_ = hir.pat_names(clo["params"][0])
+                    cv = closure_value(clo, sym)
+                    if pn_ and cv is not None:
+                        at_kw = hir.fold(cv, {("var", pn_[0]): ("lit", "moves")})
+                        at_other = hir.fold(cv, {("var", pn_[0]): ("lit", "8/8")})
+                        ok = ok and at_kw == ("lit", False) and at_other == ("lit", True)
+        ctx.check(rule, "move-list-played-after-the-keyword:%s" % word, ok, fn=fn["path"], file=fn["file"], line=hir.line(arm),
+                  what="in this branch of the position command nothing turns on the playing of the move list when the keyword `moves` "
+                       "is met: the moves are silently ignored", expected="%s = true under token == \"moves\"" % flag, found=ok)
 
 
 def file_char(part, src):
@@ -637,6 +708,45 @@ def _reader_by_value(F, D):
             return None
         if moves(v):
             bad.append((text, "read as %s" % hir.fmt(moves(v)[0], 100)))
+    # which kind of move the text is read as depends on the board: decided on concrete squares
+    gname = params[1] if len(params) > 1 else "game"
+    SOME_, NONE_ = "std::prelude::v1::Some", ("variant", "std::prelude::v1::None")
+
+    def pc(kind, owner):
+        return ("ctor", SOME_, (("struct", "chess::piece::Piece", (("owner", ("variant", PL + owner)), ("piece_type", ("variant", PT + kind)))),))
+
+    def on_board(text, board, owner="White"):
+        full = {(r_, c_): NONE_ for r_ in range(8) for c_ in range(8)}
+        full.update(board)
+        a = {("var", sname): ("lit", text), ("field", ("var", gname), "current_player"): ("variant", PL + owner),
+             ("call", "chess::Game::player", (("var", gname),)): ("variant", PL + owner)}
+        evb = chess_evalcalls(full)
+        v = hir.fold(rnf, a, D, None, evb)
+        return hir.fold(v, a, D, None, evb)
+
+    def is_move(v, kind, **flds):
+        if not (v[:1] == ("ctor",) and str(v[1]).endswith("::Some") and len(v[2]) == 1 and v[2][0][:1] == ("struct",)):
+            return False
+        st = v[2][0]
+        f = dict(st[2])
+        return st[1] == MV + kind and all(f.get(k_) == val for k_, val in flds.items())
+    wp, bn, wn = pc("Pawn", "White"), pc("Knight", "Black"), pc("Knight", "White")
+    kinds = [
+        ("e5d6 pawn takes onto an empty square", "e5d6", {(4, 4): wp}, "EnPassant", dict(start_col=("lit", 4), end_col=("lit", 3))),
+        ("e5d6 pawn takes a piece", "e5d6", {(4, 4): wp, (5, 3): bn}, "Normal", dict(start=("pos", 4, 4), end=("pos", 5, 3), captured_piece=bn)),
+        ("e5e6 pawn push", "e5e6", {(4, 4): wp}, "Normal", dict(start=("pos", 4, 4), end=("pos", 5, 4), captured_piece=NONE_)),
+        ("c3d5 knight move", "c3d5", {(2, 2): wn}, "Normal", dict(start=("pos", 2, 2), end=("pos", 4, 3), captured_piece=NONE_)),
+        ("c3b4 queen-like step of a knight-less square", "c3b4", {(2, 2): wn}, "Normal", dict(start=("pos", 2, 2), end=("pos", 3, 1))),
+    ]
+    for label, text, board, kind, flds in kinds:
+        v = on_board(text, board)
+        if not (v[:1] in (("ctor",), ("variant",))):
+            return None         # not decided on a concrete board: leave it to the structural reading
+        if not is_move(v, kind, **flds):
+            bad.append((label, "read as %s" % hir.fmt(v, 140)))
+    v = on_board("e2e4", {})
+    if v[:1] in (("ctor",), ("variant",)) and v != NONE_:
+        bad.append(("e2e4 from an empty square", "read as %s" % hir.fmt(v, 100)))
     return bad
 
 
